@@ -413,9 +413,14 @@ def is_features_concatenate(n: fx.Node, parent: fx.GraphModule) -> bool:
     :return: `True` if `n` corresponds to a concat op.
     :rtype: bool
     """
-    dim = try_get_args(n, parent, 1, 'dim', 0)
-    if n.op == 'call_function' and n.target == torch.cat and dim == 1:
-        return True
+    if n.op == 'call_function' and n.target == torch.cat:
+        # `axis` is an alias of `dim`; a negative dim counts from the end
+        dim = try_get_args(n, parent, 1, 'dim', None)
+        if dim is None:
+            dim = n.kwargs.get('axis', 0)
+        if dim < 0 and 'tensor_meta' in n.meta:
+            dim += len(n.meta['tensor_meta'].shape)
+        return dim == 1
     return False
 
 
